@@ -117,6 +117,9 @@ func nativeRun(c *config, cases []nativeCase) ([]nativeOutcome, string, error) {
 	}
 	run := exec.Command(bin, "-test.run", "^TestVerifReplay$", "-test.count=1", "-test.timeout", "600s")
 	run.Dir = filepath.Join(c.Repo, c.Pkg)
+	if st, err := os.Stat(run.Dir); err != nil || !st.IsDir() {
+		run.Dir = c.Repo // virtual (overlay-only) package
+	}
 	run.Env = env
 	out, runErr = run.CombinedOutput()
 	data, err := os.ReadFile(outPath)
